@@ -24,7 +24,7 @@ func TestMain(m *testing.M) {
 
 var bias = ls.Bias{
 	Weights:   map[ls.OpKind]int{ls.OpPush: 6, ls.OpSpawnPush: 8, ls.OpOpen: 3, ls.OpSettle: 4, ls.OpAdvance: 3, ls.OpStatus: 1, ls.OpPollers: 0, ls.OpFreeze: 2, ls.OpThaw: 2, ls.OpCancel: 1},
-	TaskKinds: []ls.TaskKind{ls.TInstant, ls.TInstant, ls.TGated, ls.TGated, ls.TSleep, ls.TPanic},
+	TaskKinds: []ls.TaskKind{ls.TInstant, ls.TInstant, ls.TInstant, ls.TGated, ls.TGated, ls.TSleep, ls.TSleep, ls.TPanic, ls.TCancel},
 	Deadline:  10,
 	MaxOps:    60,
 	Cancel:    true,
@@ -72,7 +72,7 @@ func TestScenarios(t *testing.T) {
 		})
 	})
 	if !t.Failed() {
-		for _, pt := range []string{"Q1", "Q2", "Q3", "W1", "W2", "P1"} {
+		for _, pt := range ls.Points {
 			if hookHits[pt] == 0 {
 				rt.Inconclusivef(t, "hook point %s was never reached: the verif hooks in tasklane are missing or moved", pt)
 			}
